@@ -772,6 +772,20 @@ func (env *SpecEnv) call(e *SExpr) Val {
 		// iface(p): the interface value holding pointer p (static type of p gives the tag)
 		v := arg(0)
 		return Val{T: fmt.Sprintf("(mk_iface %d %s)", reg.TypeTag(v.GT), v.T), S: SIface}
+	case "unm", "deser":
+		// unm(data, "T"): the value encoding/json.Unmarshal decodes from data into a T (T-JSON);
+		// deser(data, "T"): likewise for serialize.Serializer.Deserialize (T-SER)
+		d := arg(0)
+		if e.Args[1].Op != "str" {
+			env.fail("%s needs a type name string", e.Name)
+		}
+		st := env.resolveType(e.Args[1].Name)
+		if st.GT == nil {
+			env.fail("%s: not a Go type: %s", e.Name, e.Args[1].Name)
+		}
+		kind := e.Name
+		fn := reg.UFun(kind+"_"+sortTag(st.S)+"_"+hashName(types.TypeString(st.GT, nil)), []Sort{SBytes}, st.S)
+		return Val{T: app(fn, d.T), S: st.S, GT: st.GT}
 	case "refof":
 		v := arg(0)
 		return Val{T: env.ref(v, e.Args[0]), S: SInt}
